@@ -141,8 +141,12 @@ def build(case):
     mask = None
     if case["mask"] == "array":
         mask = (np.arange(n).reshape(shape) % 3 == 0)
+        if case["payload"] == "dask" and case["wseed"] % 2:
+            import dask.array as da
+            mask = da.from_array(mask, chunks=tuple(max(1, s_ // 2) for s_ in shape))     # a lazy mask next to lazy data
     elif case["mask"] == "scalar":
-        mask = False
+        # one value for the cube as a whole: the Python bool, or numpy's own (numpy.ma.nomask is numpy.False_)
+        mask = False if case["wseed"] % 2 else np.ma.nomask
     unc = StdDevUncertainty(np.arange(n, dtype=float).reshape(shape) + 0.5) if case["uncert"] else None
     cube = NDCube(data, wcs=wcs, mask=mask, uncertainty=unc, unit=u.ct if case["unit"] else None, meta={"k": 1})
     return cube, wcs
@@ -299,7 +303,7 @@ def _observe(case, res, out, nref, idx, chain_items, shape, wcs_ll, model_req, r
         if out.mask is None or not np.array_equal(np.asarray(out.mask), m):
             fails.append("mask differs from numpy indexing of the mask")
     elif case["mask"] == "scalar":
-        if out.mask is not False:
+        if out.mask is not (False if case["wseed"] % 2 else np.ma.nomask):
             fails.append(f"scalar mask not kept: {out.mask!r}")
     elif out.mask is not None:
         fails.append("mask appeared")
